@@ -152,6 +152,43 @@ permit(principal, action, resource) when { principal in N::%q && principal in [N
 			}
 			return sb.String(), nil
 		}},
+		{"evaluator-errors-over-sets", func() (string, error) {
+			// operators that walk a SET whose members can each fail: the reported message must not
+			// depend on the order in which the members are visited
+			doc := `permit(principal, action, resource) when { principal in [1, "a"] };
+permit(principal, action, resource) when { principal in [resource, 1, "a", true] };
+permit(principal, action, resource) when { [1, "a", true].containsAll([principal.missing, context.missing]) };
+permit(principal, action, resource) when { context.s.containsAny([1]) && principal in context.s };`
+			ps, err := cedar.NewPolicySetFromBytes("e.cedar", []byte(doc))
+			if err != nil {
+				return "", err
+			}
+			r := req
+			r.Context = types.NewRecord(types.RecordMap{"s": types.NewSet(types.Long(1), types.String("a"), types.True, types.NewSet())})
+			d, g := cedar.Authorize(ps, ents, r)
+			return diagString(d, g), nil
+		}},
+		{"batch-with-colliding-set-members", func() (string, error) {
+			// a set that contains a variable next to members that collide in the set's hash table
+			// (1 / true / decimal 0.0001 share a slot chain): the substituted request handed to
+			// the callback is rebuilt from the template and must render identically every time
+			ps, err := cedar.NewPolicySetFromBytes("f.cedar", []byte(policyDoc))
+			if err != nil {
+				return "", err
+			}
+			dec, _ := types.ParseDecimal("0.0001")
+			var out []string
+			err = batch.Authorize(context.Background(), ps, ents, batch.Request{Principal: req.Principal, Action: req.Action, Resource: req.Resource,
+				Context:   types.NewRecord(types.RecordMap{"a": types.Long(1), "b": types.String("x"), "s": types.NewSet(types.Long(1), types.True, dec, batch.Variable("x"), types.NewDurationFromMillis(1))}),
+				Variables: batch.Variables{"x": {types.Long(7), types.True}}},
+				func(r batch.Result) error {
+					js, _ := json.Marshal(r.Request.Context)
+					out = append(out, fmt.Sprintf("%s | %s | %s", r.Request.Context.MarshalCedar(), js, diagString(r.Decision, r.Diagnostic)))
+					return nil
+				})
+			sort.Strings(out)
+			return strings.Join(out, "\n"), err
+		}},
 		{"marshal-parsed-policies", func() (string, error) {
 			ps, err := cedar.NewPolicySetFromBytes("f.cedar", []byte(policyDoc))
 			if err != nil {
